@@ -370,11 +370,27 @@ func KeyMark(entry map[string]interface{}) string {
 		v = s
 	}
 
+	mark := v
 	if m, ok := markOf[v]; ok {
-		return m
+		mark = m
 	}
 
-	return v
+	// an internal-form entry (no controller member) must be exactly what keyJSON generated for (id, marker)
+	if _, external := entry["controller"]; !external {
+		id, _ := entry["id"].(string)
+
+		var want map[string]interface{}
+		if json.Unmarshal([]byte(keyJSON(id, mark)), &want) == nil {
+			gb, _ := json.Marshal(entry)
+			wb, _ := json.Marshal(want)
+
+			if string(gb) != string(wb) {
+				return "?" + string(gb)
+			}
+		}
+	}
+
+	return mark
 }
 
 // ExternalKeyValue is what the resolver's external document must show for the key (id, marker): the member name and
@@ -416,17 +432,32 @@ func svcEndpointJSON(id, mark string) string {
 	return fmt.Sprintf(`"https://sim.example/%s"`, mark)
 }
 
+// Service type, priority and an extra member vary too: non-ASCII and escaped characters, numbers that a canonicaliser
+// must format (fractions, exponents, negative values) - every hash in the system runs over this content.
+var (
+	svcTypes      = []string{"SimSvc", "OtherSvc", "Dienst-\u00fc\u20ac", "LinkedDomains"}
+	svcPriorities = []string{"1", "0", "10", "2.5", "1e21", "0.000001", "-3", "4.0E+2"}
+	svcNotes      = []string{"", "", `"\u03c0 \u2260 3,14 \"quoted\" back\\slash tab\t end"`, `"\ud83d\ude00 <b>&amp;</b>"`}
+)
+
 func svcJSON(id, mark string) string {
+	h := idMarkHash(id, mark)
+	s := fmt.Sprintf(`{"id":%q,"type":"%s","serviceEndpoint":%s`, id, svcTypes[(h/3)%len(svcTypes)], svcEndpointJSON(id, mark))
+
 	if len(mark)%2 == 0 {
-		return fmt.Sprintf(`{"id":%q,"type":"SimSvc","serviceEndpoint":%s,"priority":1}`, id, svcEndpointJSON(id, mark))
+		s += `,"priority":` + svcPriorities[(h/5)%len(svcPriorities)]
 	}
 
-	return fmt.Sprintf(`{"id":%q,"type":"OtherSvc","serviceEndpoint":%s}`, id, svcEndpointJSON(id, mark))
+	if n := svcNotes[(h/13)%len(svcNotes)]; n != "" {
+		s += `,"description":` + n
+	}
+
+	return s + "}"
 }
 
-// SvcMark extracts the marker from a service entry (internal or external form), whatever shape its endpoint has.
-// An endpoint that is not one of the generated shapes is rendered verbatim, so that a damaged endpoint shows up as a
-// difference.
+// SvcMark extracts the marker from a service entry (internal or external form), whatever shape its endpoint has, and
+// checks that EVERY member of the entry is what svcJSON generated for (id, marker). An entry that deviates in any
+// member is rendered verbatim, so that it shows up as a difference.
 func SvcMark(entry map[string]interface{}) string {
 	fromURI := func(u string) (string, bool) {
 		switch {
@@ -436,11 +467,7 @@ func SvcMark(entry map[string]interface{}) string {
 				return strings.TrimSuffix(u, "?tenant=a&mode=b"), true
 			}
 
-			if strings.ContainsAny(u, "?&") {
-				return "", false
-			}
-
-			return u, true
+			return u, !strings.ContainsAny(u, "?&")
 		case strings.HasPrefix(u, "did:sim:mediator:"):
 			return strings.TrimPrefix(u, "did:sim:mediator:"), true
 		}
@@ -449,36 +476,55 @@ func SvcMark(entry map[string]interface{}) string {
 	}
 
 	verbatim := func() string {
-		b, _ := json.Marshal(entry["serviceEndpoint"])
+		b, _ := json.Marshal(entry)
 
 		return "?" + string(b)
 	}
 
+	mark, ok := "", false
+
 	switch ep := entry["serviceEndpoint"].(type) {
 	case string:
-		if m, ok := fromURI(ep); ok {
-			return m
-		}
+		mark, ok = fromURI(ep)
 	case []interface{}:
-		if len(ep) == 2 {
+		if len(ep) > 0 {
 			a, _ := ep[0].(string)
-			b, _ := ep[1].(string)
-
-			if m, ok := fromURI(a); ok && b == "urn:sim:"+m {
-				return m
-			}
+			mark, ok = fromURI(a)
 		}
 	case map[string]interface{}:
 		u, _ := ep["uri"].(string)
-		acc, _ := json.Marshal(ep["accept"])
-		rk, _ := json.Marshal(ep["routingKeys"])
-
-		if m, ok := fromURI(u); ok && string(acc) == `["didcomm/v2","a\u0026b"]` && string(rk) == "[]" && len(ep) == 3 {
-			return m
-		}
+		mark, ok = fromURI(u)
 	}
 
-	return verbatim()
+	if !ok {
+		return verbatim()
+	}
+
+	id, _ := entry["id"].(string)
+	if i := strings.LastIndex(id, "#"); i >= 0 {
+		id = id[i+1:]
+	}
+
+	var want map[string]interface{}
+	if json.Unmarshal([]byte(svcJSON(id, mark)), &want) != nil {
+		return verbatim()
+	}
+
+	// compare through JSON so that typed slices/maps inside the entry do not matter
+	got := map[string]interface{}{}
+	for k, v := range entry {
+		got[k] = v
+	}
+
+	got["id"] = id
+	gb, _ := json.Marshal(got)
+	wb, _ := json.Marshal(want)
+
+	if string(gb) != string(wb) {
+		return verbatim()
+	}
+
+	return mark
 }
 
 // KeyPurposes returns the purposes keyJSON gives to the key (id, mark) – the relationship sections of the
